@@ -12,6 +12,3 @@ func (r *checkRun) staticCheck(name string) ([]*StaticResult, error) {
 	return nil, fmt.Errorf("static check %s not implemented", name)
 }
 
-func (r *checkRun) runBounded(bp BoundedPlan) (map[string]any, []violation) {
-	return map[string]any{"name": bp.Name, "error": "not implemented"}, nil
-}
